@@ -4,3 +4,4 @@ pub mod c03;
 pub mod c05;
 pub mod c06;
 pub mod c18;
+pub mod c05_concurrent;
